@@ -959,3 +959,29 @@ fire('obj-consumer-callable-class-drops-entry-late', ['C11'], 'C11.FUTURE-PAIRIN
      (PROC, 'ProcessExecutor._consume_result_queue', _CLOSURE_TEXT, ""),
      (PROC, 'ProcessExecutor._consume_result_queue', "consumer_thread = Thread(target=_consume)", "consumer_thread = Thread(target=_ResultQueueConsumer(self, timeout_seconds))"),
      note='the class-based consumer never frees the worker slot of a finished future')
+
+
+# -- round-5 obligations ----------------------------------------------------------------------------------------------------
+fire('r5-cache-key-as-set-member', ['C03', 'C05', 'C11'], 'SWEEP.CACHE-KEY-NOT-IDENTITY',
+     (LAB, 'TaskState.start_task', "        self.pending_tasks.remove(task)", "        self.pending_tasks.remove(task)\n        self.processed_task_ids.add(task.cache_key)"))
+fire('r5-cache-key-dict-index', ['C01', 'C02'], 'SWEEP.CACHE-KEY-NOT-IDENTITY',
+     (PROC, 'ProcessRunner.get_result', "return self.results_map[task]", "return {t.cache_key: r for t, r in self.results_map.items()}[task.cache_key]"))
+silent('r5-cache-key-logged', ['C03', 'C05', 'C11'],
+       (LAB, 'TaskState.start_task', "        self.pending_tasks.remove(task)", "        self.pending_tasks.remove(task)\n        logger.debug(f'starting {task.cache_key}')"),
+       note='reading the key for a log line is not using it as an identity')
+fire('r5-query-drops-task', ['C11', 'C05'], 'C11.QUERY-PURE',
+     (LAB, 'TaskState.get_ready_tasks', "            ready_tasks.append(task)", "            ready_tasks.append(task)\n            self.processed_task_ids.discard(id(task))"))
+fire('r5-stop-joins', ['C14'], 'C14.STOP-DOES-NOT-WAIT',
+     (PROC, 'ProcessExecutor.stop', "            process.terminate()", "            process.terminate()\n            process.join(5)"))
+fire('r5-consumer-cancels', ['C14'], 'C14.WHO-MAY-CANCEL',
+     (LAB, 'TaskCoordinator.run', "                runner.remove_results(tasks_with_removable_results)", "                runner.remove_results(tasks_with_removable_results)\n                if len(task_results) > 10_000:\n                    runner.cancel()"))
+fire('r5-backend-keeps-runner', ['C10', 'C16'], 'SUPPORT.BACKEND-STATELESS',
+     (PROC, 'ForkRunnerBackend.build_runner', "        return ForkProcessRunner(", "        self._last_runner = None\n        return ForkProcessRunner("))
+fire('r5-run-fast-path', ['C03', 'C01'], 'C03.RUN-NO-BYPASS',
+     (LAB, 'TaskCoordinator.run', "        state = TaskState(", "        if not tasks:\n            return {}\n        state = TaskState("),
+     note='even the trivial early return is reported: the rule is about every exit passing the scheduler state')
+fire('r5-runner-side-table', ['C17'], 'C17.RELEASE-COVERS-ALL-STORES',
+     (PROC, 'ProcessRunner.submit_task', "        future = self._submit_task(", "        self.submitted_names = getattr(self, 'submitted_names', {})\n        self.submitted_names[task] = task_name\n        future = self._submit_task("))
+fire('r5-visited-set-grows', ['C15', 'C02'], 'C15.VISITED-PATH-LOCAL',
+     ('labtech/tasks.py', 'find_tasks_in_param', "        searched_coll_ids = searched_coll_ids | {id(param_value)}\n        return [\n            task\n            for item in param_value\n",
+      "        searched_coll_ids.add(id(param_value))\n        return [\n            task\n            for item in param_value\n"))
